@@ -324,6 +324,8 @@ class Model:
         ca, cb = (a.const() if isinstance(a, Num) else None), (b.const() if isinstance(b, Num) else None)
         if ca is not None and cb is not None:
             return {'lt': ca < cb, 'le': ca <= cb, 'gt': ca > cb, 'ge': ca >= cb, 'eq': ca == cb, 'ne': ca != cb}[op]
+        if isinstance(a, Num) and isinstance(b, Num) and a.r == b.r:
+            return {'eq': True, 'le': True, 'ge': True, 'ne': False, 'lt': False, 'gt': False}[op]      # the same expression on both sides
         if isinstance(a, B) and isinstance(b, B):
             return {'eq': a.b == b.b, 'ne': a.b != b.b}[op]
         if isinstance(a, Enum) and isinstance(b, Enum):
@@ -335,6 +337,10 @@ class Model:
 
     def for_loop(self, iterable, pat, body, frame, e):
         raise Unsupported("loop (the rules never unroll loops; this one is not modelled)", e)
+
+    def slice_pattern(self, obj, npre, nsuf, has_rest):
+        """places of the prefix + suffix elements if `obj` (a slice-like model object) matches, None if it does not"""
+        return NotImplemented
 
     def plain_loop(self, body, frame, e):
         raise Unsupported("`loop`/`while` is not modelled", e)
@@ -508,9 +514,25 @@ class Interp:
             return NotImplemented
         if tname == 'std::hint::must_use' or tname == 'std::convert::identity':
             return args[0]
+        if tname in ('std::ops::Fn::call', 'std::ops::FnMut::call_mut', 'std::ops::FnOnce::call_once') and len(args) == 2:
+            packed = deref_all(args[1])
+            if isinstance(packed, Tup):
+                return self.apply(args[0], packed.items, e)
+            if isinstance(packed, Unit):
+                return self.apply(args[0], [], e)
+        if tname in ('std::result::Result::is_ok', 'std::result::Result::is_err', 'std::option::Option::is_some', 'std::option::Option::is_none'):
+            o = deref_all(args[0])
+            if isinstance(o, Enum):
+                want = {'is_ok': 'Ok', 'is_err': 'Err', 'is_some': 'Some', 'is_none': 'None'}[tname.split('::')[-1]]
+                return B(o.variant == want)
+        if (tname.startswith('std::option::Option::') or tname.startswith('std::result::Result::')) and args and isinstance(deref_all(args[0]), Opaque):
+            return Opaque("%s of %s" % (tname.split('::')[-1], deref_all(args[0]).why))
         if tname in ('std::convert::Into::into', 'std::convert::From::from', 'std::string::ToString::to_string',
                      'std::borrow::ToOwned::to_owned') and isinstance(deref_all(args[0]), Obj) and deref_all(args[0]).kind in ('str', 'fmt'):
             return Obj('fmt')
+        r = self._option_result(tname, args, e)
+        if r is not NotImplemented:
+            return r
         if tname == 'std::option::Option::map':
             o = deref_all(args[0])
             if isinstance(o, Enum) and o.variant == 'Some':
@@ -559,6 +581,14 @@ class Interp:
                 if o.variant == 'Ok':
                     return Enum('std::ops::ControlFlow', 'Continue', {'0': o.fields['0']})
                 return Enum('std::ops::ControlFlow', 'Break', {'0': o})
+            if isinstance(o, Enum) and o.adt == 'std::option::Option':
+                if o.variant == 'Some':
+                    return Enum('std::ops::ControlFlow', 'Continue', {'0': o.fields['0']})
+                return Enum('std::ops::ControlFlow', 'Break', {'0': o})
+            if isinstance(o, Enum) and o.adt == 'std::ops::ControlFlow':
+                if o.variant == 'Continue':
+                    return Enum('std::ops::ControlFlow', 'Continue', {'0': o.fields['0']})
+                return Enum('std::ops::ControlFlow', 'Break', {'0': o})
             return NotImplemented
         if tname == 'std::ops::FromResidual::from_residual':
             return deref_all(args[0])
@@ -572,6 +602,94 @@ class Interp:
             if isinstance(a, Enum):
                 return Obj('discr', of=a)
             return NotImplemented
+        return NotImplemented
+
+    def _option_result(self, tname, args, e):
+        """std's Option / Result / bool combinators on known variants (their documented semantics)"""
+        if not args:
+            return NotImplemented
+        last = tname.split('::')[-1]
+        if tname.startswith('std::bool::<impl bool>::') or tname.startswith('core::bool::<impl bool>::'):
+            c = deref_all(args[0])
+            if isinstance(c, B):
+                if last == 'then':
+                    return SOME(self.apply(args[1], [], e)) if c.b else NONE
+                if last == 'then_some':
+                    return SOME(args[1]) if c.b else NONE
+            return NotImplemented
+        isopt = tname.startswith('std::option::Option::')
+        isres = tname.startswith('std::result::Result::')
+        if not (isopt or isres):
+            return NotImplemented
+        o = deref_all(args[0])
+        if not isinstance(o, Enum) or o.variant not in ('Some', 'None', 'Ok', 'Err'):
+            return NotImplemented
+        good = o.variant in ('Some', 'Ok')
+        val = o.fields.get('0')
+        wrap = SOME if isopt else OK
+        if last in ('unwrap', 'expect'):
+            if good:
+                return val
+            raise Diverge("%s on %s" % (last, o.variant), e)
+        if last in ('unwrap_err', 'expect_err') and isres:
+            if not good:
+                return val
+            raise Diverge("%s on Ok" % last, e)
+        if last == 'and_then':
+            return self.apply(args[1], [val], e) if good else o
+        if last == 'or_else':
+            return o if good else self.apply(args[1], [] if isopt else [val], e)
+        if last == 'or':
+            return o if good else args[1]
+        if last == 'and':
+            return args[1] if good else o
+        if last == 'map_or':
+            return self.apply(args[2], [val], e) if good else args[1]
+        if last == 'map_or_else' and isopt:
+            return self.apply(args[2], [val], e) if good else self.apply(args[1], [], e)
+        if last == 'ok_or' and isopt:
+            return OK(val) if good else ERR(args[1])
+        if last == 'ok_or_else' and isopt:
+            return OK(val) if good else ERR(self.apply(args[1], [], e))
+        if last == 'ok' and isres:
+            return SOME(val) if good else NONE
+        if last == 'err' and isres:
+            return NONE if good else SOME(val)
+        if last == 'map_err' and isres:
+            return o if good else ERR(self.apply(args[1], [val], e))
+        if last == 'unwrap_or' and isres:
+            return val if good else args[1]
+        if last == 'unwrap_or_else' and isres:
+            return val if good else self.apply(args[1], [val], e)
+        if last in ('is_some_and', 'is_ok_and'):
+            return self.apply(args[1], [val], e) if good else B(False)
+        if last == 'is_none_or':
+            return self.apply(args[1], [val], e) if good else B(True)
+        if last == 'is_err_and':
+            return B(False) if good else self.apply(args[1], [val], e)
+        if last == 'filter' and isopt:
+            if not good:
+                return o
+            keep = deref_all(self.apply(args[1], [Ref(ValPlace(val))], e))
+            if isinstance(keep, B):
+                return o if keep.b else NONE
+            return NotImplemented
+        if last in ('as_ref', 'as_mut', 'as_deref'):
+            if good:
+                return wrap(Ref(FieldPlace(ValPlace(o), '0')))
+            return o
+        if last in ('copied', 'cloned') and isres:
+            return OK(deref_all(val)) if good else o
+        if last == 'zip' and isopt:
+            p = deref_all(args[1])
+            if isinstance(p, Enum):
+                return SOME(Tup([val, p.fields['0']])) if good and p.variant == 'Some' else NONE
+        if last == 'xor' and isopt:
+            p = deref_all(args[1])
+            if isinstance(p, Enum):
+                if good != (p.variant == 'Some'):
+                    return o if good else p
+                return NONE
         return NotImplemented
 
     # ------------------------------------------------------------ patterns
@@ -620,6 +738,34 @@ class Interp:
             if m and isinstance(v, Num):
                 return self.model.compare('eq', v, Num(int(m.group(1))), None)
             raise Unsupported("constant pattern %s against %r" % (s, v))
+        if k == 'Slice':
+            v = deref_all(place.get())
+            pre, suf = pat.get('prefix', []), pat.get('suffix', [])
+            if isinstance(v, Obj):
+                rest = pat.get('slice')
+                if rest is not None and rest.get('k') not in ('Wild', 'Missing'):
+                    raise Unsupported("slice pattern with a bound rest part")
+                places = self.model.slice_pattern(v, len(pre), len(suf), rest is not None)
+                if places is NotImplemented:
+                    raise Unsupported("slice pattern against %r" % (v,))
+                if places is None:
+                    return False
+                return all(self.match_pat(p, pl, fr) for p, pl in zip(list(pre) + list(suf), places))
+            if not isinstance(v, Tup):
+                raise Unsupported("array pattern against %r" % (v,))
+            n = len(v.items)
+            if pat.get('slice') is None:
+                if len(pre) + len(suf) != n:
+                    return False
+            elif len(pre) + len(suf) > n or pat['slice'].get('k') not in ('Wild', 'Missing'):
+                raise Unsupported("array pattern with a bound rest part")
+            for i, p in enumerate(pre):
+                if not self.match_pat(p, FieldPlace(place, str(i)), fr):
+                    return False
+            for i, p in enumerate(suf):
+                if not self.match_pat(p, FieldPlace(place, str(n - len(suf) + i)), fr):
+                    return False
+            return True
         if k == 'Or':
             for p in pat['pats']:
                 if self.match_pat(p, place, fr):
@@ -636,6 +782,8 @@ class Interp:
             v = self.eval(e['e'], fr)
             if isinstance(v, Ref):
                 return v.place
+            if isinstance(v, (Obj, Opaque)):
+                return ValPlace(v)          # model objects are handles: a borrowed handle is the handle
             raise Unsupported("deref of non-reference %r" % (v,), e)
         if k == 'Field':
             base = self.eval_place(e['e'], fr)
